@@ -19,7 +19,7 @@ from .world import Violation, real_children
 KEY_MAPS = [None, {"data_id": "i", "str": "s"}, {"data_id": "i", "str": "s", "kind": "k",
                                                    "type": "t", "name": "n", "age": "a"},
             {"type": "ty", "v": "value"}]
-VALUE_MAPS = [None, {"type": ["int", "tup", "person", "obj", "wrap", "udict"]}]
+VALUE_MAPS = [None, {"type": ["int", "tup", "person", "obj", "wrap", "udict", "float"]}]
 
 
 # ------------------------------------------------------------------------------
@@ -31,6 +31,8 @@ def _dsym(obj):
         return "s:" + obj
     if f == "i":
         return f"i:{obj}"
+    if f == "x":
+        return f"x:{obj}"
     if f == "t":
         return f"t:{obj[0]}"
     if f == "d":
@@ -155,8 +157,13 @@ def run_case(case: dict, nt):
         text = json.dumps(case["doc"])
         fm = {}
         try:
-            loaded = cls.load(S.SimStream_from(text),
-                              mapper=_deser(nt, consume=bool(case.get("consume"))), file_meta=fm)
+            if case.get("no_mapper"):
+                # a document of plain strings (what save() writes without a mapper)
+                loaded = cls.load(S.SimStream_from(text), file_meta=fm)
+            else:
+                loaded = cls.load(S.SimStream_from(text),
+                                  mapper=_deser(nt, consume=bool(case.get("consume"))),
+                                  file_meta=fm)
         except Exception as e:  # noqa: BLE001
             return [Violation("C12", "reader-rejects-layout",
                               f"load() of a document that follows the documented layout raised "
@@ -286,6 +293,31 @@ def doc_examples():
     vm = {"type": ["dept_doc", "person_doc"]}
     cases = [{"engine": "peer", "case": "example", "cls": "Tree", "doc": plain,
               "expect": plain_expect, "user_meta": {"foo": "bar"}, "name": "plain-strings"}]
+    # plain strings with custom data_ids (incl. the empty string and falsy ids), as the
+    # library writes them without a mapper: {"s": <str>, "i": <data_id>} (typed: "k")
+    sid_nodes = [[0, {"s": "A", "i": "id-A"}], [1, {"s": "", "i": 5}], [1, "a2"],
+                 [0, {"s": "B", "i": 0}], [4, {"s": "", "i": ""}]]
+    sid_expect = {"tree": [
+        ["s:A", None, "'id-A'", [["s:", None, "5", []], ["s:a2", None, None, []]]],
+        ["s:B", None, "0", [["s:", None, "''", []]]]],
+        "groups": [[0], [1], [2], [3], [4]]}
+    cases.append({"engine": "peer", "case": "example", "cls": "Tree", "no_mapper": True,
+                  "doc": {"meta": {"$generator": "nutree/0.9.0", "$format_version": "1.0",
+                                   "$key_map": {"data_id": "i", "str": "s"}},
+                          "nodes": sid_nodes},
+                  "expect": sid_expect, "name": "strings-with-ids-no-mapper"})
+    typed_nodes = [[0, {"s": "A", "i": "id-A", "k": 0}], [1, {"s": "", "i": 5, "k": 1}],
+                   [1, {"s": "a2", "k": 1}], [0, {"s": "B", "i": 0, "k": 0}]]
+    typed_expect = {"tree": [
+        ["s:A", "x", "'id-A'", [["s:", "", "5", []], ["s:a2", "", None, []]]],
+        ["s:B", "x", "0", []]],
+        "groups": [[0], [1], [2], [3]]}
+    cases.append({"engine": "peer", "case": "example", "cls": "TypedTree", "no_mapper": True,
+                  "doc": {"meta": {"$generator": "nutree/0.9.0", "$format_version": "1.0",
+                                   "$key_map": {"data_id": "i", "str": "s", "kind": "k"},
+                                   "$value_map": {"kind": ["x", ""]}},
+                          "nodes": typed_nodes},
+                  "expect": typed_expect, "name": "typed-strings-with-ids-no-mapper"})
     for name, k, v in (("objects-verbose", None, None), ("objects-key_map", km, None),
                        ("objects-key_map-value_map", km, vm)):
         cases.append({"engine": "peer", "case": "example", "cls": "Tree", "doc": obj_doc(k, v),
@@ -375,8 +407,12 @@ def seeded_cases(base_seed, index, tier, nt):
     depth_parent = rng.choice([0, 1])
     nodes = [[0, "P"], [depth_parent, dup], [depth_parent, rng.choice(labels)],
              [depth_parent, dup]]
-    if rng.random() < 0.5:
+    r3 = rng.random()
+    if r3 < 0.35:
         nodes[3] = [depth_parent, 2]  # reference to the sibling itself
+    elif r3 < 0.6:
+        # both duplicates are references to an occurrence below ANOTHER parent
+        nodes = [[0, "A"], [1, dup], [0, "B"], [3, 2], [3, rng.choice(labels)], [3, 2]]
     cases.append({"engine": "peer", "case": "dup-load", "cls": "Tree",
                   "doc": {"meta": {"$generator": "nutree/0.9.0", "$format_version": "1.0"},
                           "nodes": nodes}})
